@@ -37,7 +37,7 @@ var profiles = map[string]Profile{
 	"election": {MinNodes: 3, MaxNodes: 5, Steps: 18, Clients: 2, MaxIDs: 6, DelayProb: 0.08,
 		Ops: map[string]int{"update": 5, "read": 1},
 		Faults: map[string]int{"isolate-leader": 6, "isolate-any": 2, "oneway": 4, "split": 3, "stall": 4, "break": 3,
-			"restart": 3, "crash-vote": 4, "transfer": 2, "member": 1, "heal": 2}},
+			"restart": 3, "crash-vote": 4, "transfer": 2, "member": 1, "heal": 2, "slow-votes": 6}},
 	"load": {MinNodes: 3, MaxNodes: 5, Steps: 10, Clients: 8, MaxIDs: 5, DelayProb: 0.05,
 		Ops:    map[string]int{"update": 8, "read": 2, "dirty": 2, "barrier": 1},
 		Faults: map[string]int{"isolate-leader": 3, "stall": 2, "break": 2, "restart": 2, "crash": 2, "transfer": 3, "snapshot": 3, "selfdemote": 1, "heal": 2}},
@@ -561,6 +561,22 @@ func (e *engineA) fault(act string) {
 			target = 99 // invalid
 		}
 		go e.cl.transfer(l, target, time.Duration(1+e.rng.Intn(6))*e.hb())
+	case "slow-votes":
+		// a voter whose disk is slow: its grant leaves long after it was decided
+		n := e.randLive()
+		if n == nil {
+			return
+		}
+		d := time.Duration((0.3 + e.rng.Float64()) * float64(e.hb()))
+		e.pc.setSlow(n.dir, "vote.persisted", d)
+		if l := e.cl.leader(); l != nil && e.rng.Intn(2) == 0 {
+			e.isolate(l, true)
+			e.sleepHB(2, 5)
+			e.isolate(l, false)
+		} else {
+			e.sleepHB(2, 5)
+		}
+		e.pc.setSlow(n.dir, "vote.persisted", 0)
 	case "slow-snapshot":
 		// the snapshot file is written, then publication waits while the load goes on
 		n := e.cl.leader()
